@@ -376,6 +376,67 @@ def run_overlaps(pe, acc, case):
                     acc.fail('cov:zero-error-member', sub, 'list with a %s observable (error 0) at position %d: %s' % (zn, pos, bad))
                 else:
                     acc.ok(('zero', zn, pos), True, 'zero-error-member-ok')
+        # eigenvalue smoothing of a list that contains an observable without error: the smoothing acts on the correlation matrix of
+        # the list (unit diagonal, zero row / column for that member), trace preserved
+        mem = [a, b, a * b, np.sin(a) + 0.3 * b, a - 0.5 * b * b, b / (1.0 + a)]
+        for o in mem:
+            o.gamma_method()
+        for zn, z in zs.items():
+            if zn == 'zero-variance-input':
+                continue       # (a list with an external input has more samples than members: nothing special)
+            for pos in (0, 2, 5):
+                for k in (5, 6):
+                    lst = mem[:k]
+                    lst = lst[:pos] + [z] + lst[pos:] if pos < k else lst + [z]
+                    corr = pe.covariance(lst, correlation=True)
+                    for E in range(3, len(lst) - 1):
+                        sub = dict(case, zero=zn, pos=pos, k=len(lst), E=E)
+                        try:
+                            sm = pe.covariance(lst, correlation=True, smooth=E)
+                            bad = check_smoothing(corr, sm, E)
+                            bad = bad and '%s: %s' % bad
+                        except Exception as e:
+                            bad = 'raised %s: %s' % (type(e).__name__, e)
+                        if bad:
+                            acc.fail('smooth:zero-error-member', sub, 'list of %d with a %s observable at position %d, E=%d: %s' % (len(lst), zn, pos, E, bad))
+                        else:
+                            acc.ok(('zsm', zn, pos, len(lst), E), True, 'smoothing-ok')
+    # several external inputs, observables built on different subsets of them, every pair / triple in every order: J1 Sigma J2^T
+    # summed over the SHARED inputs
+    cA = pe.cov_Obs(1.1, 0.04, 'ciA')
+    cB = pe.cov_Obs([0.7, 1.9], [[0.09, 0.02], [0.02, 0.16]], 'ciB')
+    cC = pe.cov_Obs(2.3, 0.25, 'ciC')
+    cD = pe.cov_Obs([1.0, 0.5, 2.0], alpha.cov_matrix(3, True, 'ciD'), 'ciD')
+    fam = {'f(A,B)': cA * cB[0] + cB[1], 'g(B,C)': cB[0] / cC + cB[1] * cB[1], 'h(A,C)': cA - 2.0 * cC, 'k(C)': np.exp(0.2 * cC), 'l(A,B,C)': cA * cB[1] * cC,
+           'm(D,A)': cD[0] * cD[2] + cA, 'n(B,D)': cB[0] - cD[1] * cD[2], 'p(D)': cD[1] + 0.5 * cD[0]}
+    for o in fam.values():
+        o.gamma_method()
+    refs = {k: compare.to_ref(v) for k, v in fam.items()}
+
+    def jsj(x, y):
+        tot = 0.0
+        for nm in set(refs[x]['cov']) & set(refs[y]['cov']):
+            S, gx = refs[x]['cov'][nm]
+            gy = refs[y]['cov'][nm][1]
+            tot += float(np.ravel(gx) @ np.asarray(S) @ np.ravel(gy))
+        return tot
+    keys = list(fam)
+    for k in (2, 3):
+        for lst in itertools.permutations(keys, k):
+            sub = dict(case, members=list(lst))
+            try:
+                with warnings.catch_warnings():
+                    warnings.simplefilter('ignore')
+                    cov = pe.covariance([fam[x] for x in lst])
+            except Exception as e:
+                acc.fail('cov:external-subsets:raised', sub, 'covariance of %s raised %s: %s' % (list(lst), type(e).__name__, e))
+                continue
+            exp = np.array([[jsj(x, y) for y in lst] for x in lst])
+            if not np.allclose(cov, exp, rtol=1e-10, atol=1e-14):
+                i, j = np.unravel_index(np.argmax(np.abs(cov - exp)), cov.shape)
+                acc.fail('cov:external-subsets', sub, 'list %s: cov(%s, %s) = %.12g, J1 Sigma J2^T over the shared inputs = %.12g' % (list(lst), lst[i], lst[j], cov[i, j], exp[i, j]))
+            else:
+                acc.ok(('ext', lst), True, 'external-subsets-ok')
     acc.sample({'kind': 'overlaps', 'bases': sorted(OVERLAP_BASES), 'common': [0, 1, 2, 3], 'where': ['after', 'before', 'interior']})
 
 
